@@ -31,6 +31,14 @@ type Input struct {
 	//   "shared-buffer" one buffer reused for all Insert calls of a snapshot, overwritten in place (as a spy does)
 	//   "mutate-after"  the caller scribbles over the key slice right after Insert returns
 	Reuse string `json:"reuse,omitempty"`
+	Ratio string `json:"ratio,omitempty"`
+}
+
+func gcd(a, b int) int {
+	for b != 0 {
+		a, b = b, a%b
+	}
+	return a
 }
 
 func randVal(r *rand.Rand) uint64 {
@@ -69,8 +77,42 @@ func gen(r *rand.Rand, idx int, tier string) Input {
 			in.Cur = append(in.Cur, mk(append([]byte{}, k...), randVal(r)))
 		}
 	}
-	classes := []string{"subset", "disjoint", "underflow", "prevonly-split", "mixed", "equal", "empty-prev"}
+	classes := []string{"subset", "disjoint", "underflow", "prevonly-split", "mixed", "equal", "empty-prev", "wide"}
 	in.Class = classes[idx%len(classes)]
+	if in.Class == "wide" {
+		// a node with 17..40 children (distinct first bytes), at the root or below a prefix; after it became wide,
+		// stacks through its smallest and its largest lead byte are inserted again (same key, extension, divergence)
+		prefix := lib.Pick(r, [][]byte{{}, []byte("main;"), []byte("ab")})
+		fan := lib.Range(r, 17, 40)
+		keys, lo, hi := trieu.WideKeys(r, prefix, fan, false)
+		again := func(k []byte) [][]byte {
+			ext := append(append([]byte{}, k...), 'z', 'z')
+			div := append([]byte{}, k...)
+			div[len(div)-1] ^= 1
+			return [][]byte{k, ext, k, div}
+		}
+		in.Cur = in.Cur[:0]
+		for _, k := range keys {
+			in.Cur = append(in.Cur, Op{K: k, V: randVal(r), M: true})
+		}
+		for _, k := range append(again(lo), again(hi)...) {
+			in.Cur = append(in.Cur, Op{K: k, V: 1 + randVal(r), M: true})
+		}
+		if lib.Chance(r, 0.5) { // a few more re-insertions anywhere in the wide node
+			for i := 0; i < 4; i++ {
+				in.Cur = append(in.Cur, Op{K: lib.Pick(r, keys), V: randVal(r), M: true})
+			}
+		}
+		// prev: wide as well (same lead bytes), then the smallest / largest again; counts above and below cur's
+		for _, k := range keys {
+			if lib.Chance(r, 0.8) {
+				in.Prev = append(in.Prev, Op{K: k, V: randVal(r), M: true})
+			}
+		}
+		for _, k := range append(again(lo), again(hi)...) {
+			in.Prev = append(in.Prev, Op{K: k, V: randVal(r), M: true})
+		}
+	}
 	switch in.Class {
 	case "subset":
 		for _, o := range in.Cur {
@@ -128,17 +170,37 @@ func gen(r *rand.Rand, idx int, tier string) Input {
 	case "empty-prev":
 	}
 	in.Reuse = []string{"", "shared-buffer", "mutate-after", "shared-buffer"}[(idx/len(classes))%4]
-	switch r.Intn(6) {
-	case 0, 1:
+	switch r.Intn(8) {
+	case 0:
 		in.M, in.D = 1, 1
-	case 2:
+	case 1:
 		in.M, in.D = lib.Range(r, 1, 9), lib.Range(r, 1, 9)
-	case 3:
+	case 2:
 		in.M, in.D = 0, lib.Range(r, 1, 5)
-	case 4: // v < 2^41 after accumulation of < 64 values below 2^40 ... keep v*m < 2^64: m < 2^17
+	case 3: // v < 2^41 after accumulation of < 64 values below 2^40 ... keep v*m < 2^64: m < 2^17
 		in.M, in.D = lib.Range(r, 1, 1<<17), lib.Range(r, 1, 1<<20)
-	default:
+	case 4:
 		in.M, in.D = 1, lib.Range(r, 2, 100)
+	default: // ratios that are not binary fractions: m in 1..16, d in 1..64
+		in.M, in.D = lib.Range(r, 1, 16), lib.Range(r, 1, 64)
+		in.Ratio = "small-rational"
+		g := gcd(in.M, in.D)
+		step := uint64(in.D / g) // v*m is an exact multiple of d iff v is a multiple of d/gcd(m,d)
+		mode := r.Intn(4)
+		for i := range in.Cur {
+			switch {
+			case mode <= 1: // exact multiples (sums of multiples stay multiples)
+				in.Cur[i].V = step * uint64(lib.Range(r, 0, 40))
+				in.Cur[i].M = true
+			case mode == 2 && lib.Chance(r, 0.5): // near 2^53 and above (v*m stays below 2^60)
+				in.Cur[i].V = (uint64(1) << uint(lib.Range(r, 52, 55))) - uint64(r.Intn(3)) + uint64(r.Intn(3))
+				if lib.Chance(r, 0.5) {
+					in.Cur[i].V -= in.Cur[i].V % step
+				}
+			default:
+				in.Cur[i].V = uint64(lib.Range(r, 0, 200))
+			}
+		}
 	}
 	return in
 }
@@ -272,9 +334,41 @@ func run(in Input) (res lib.Result) {
 		NonTrivial: (prevOnly && split) || underflow,
 		Feat: map[string]interface{}{"class": in.Class, "cur_ops": len(in.Cur), "prev_ops": len(in.Prev),
 			"key_slices": map[string]string{"": "fresh", "shared-buffer": "shared-buffer", "mutate-after": "mutate-after"}[in.Reuse], "split": split, "underflow": underflow, "prev_only_key": prevOnly, "ratio": ratio,
-			"cur_nodes": trieu.Size(curDump), "diff_nodes": trieu.Size(diffDump)},
+			"cur_nodes": trieu.Size(curDump), "diff_nodes": trieu.Size(diffDump), "max_fanout_gt16": maxFan(curDump) > 16,
+			"exact_multiple_count": exactMultiple(curIter, in.M, in.D), "count_ge_2^53": bigCount(curIter)},
 		Obs: map[string]interface{}{"diff": diffIter},
 	}
+}
+
+func maxFan(n *transporttrie.VerifNode) int {
+	m := len(n.Children)
+	for _, c := range n.Children {
+		if x := maxFan(c); x > m {
+			m = x
+		}
+	}
+	return m
+}
+
+func exactMultiple(l []trieu.KV, m, d int) bool {
+	if d <= 1 || m == 0 {
+		return false
+	}
+	for _, kv := range l {
+		if kv.V > 0 && (kv.V*uint64(m))%uint64(d) == 0 {
+			return true
+		}
+	}
+	return false
+}
+
+func bigCount(l []trieu.KV) bool {
+	for _, kv := range l {
+		if kv.V >= 1<<53 {
+			return true
+		}
+	}
+	return false
 }
 
 func main() {
